@@ -308,6 +308,8 @@ def check_integral(prog: Program, res: Result, ig, rule: str) -> None:
 def check(prog: Program, res: Result) -> None:
     check_rough(prog, res)
     check_refine(prog, res)
+    from . import c12
+    res.borrow(c12.check_split, "C06-split", prog)
     res.assumptions.append("completeness/soundness against a brute-force neighbour scan, plateaus and the half-patch bound are not decided")
 
 
